@@ -30,10 +30,26 @@ def build(seed, k):
     rows = rows[:rng.choice([3, 8, 30, 200])]
     df = scenes.make_frame(rows)
     defects = [rng.choice(DEFECTS)]
+    origin = rng.choice(['fresh', 'fresh', 'checked', 'chunk'])
+    if origin != 'fresh':
+        # tables derived (concat, copy, slicing, dropped / added columns ...) from something the package itself already
+        # screened or holds: whatever came back from an earlier check must be screened like any other table
+        try:
+            with warnings.catch_warnings():
+                warnings.simplefilter('ignore')
+                if origin == 'checked':
+                    from ampycloud.utils import utils as _u
+                    df = _u.check_data_consistency(df)
+                else:
+                    from ampycloud.data import CeiloChunk as _C
+                    df = _C(df).data[REQ]
+        except Exception:
+            origin = 'fresh'
+    defects.append('origin_' + origin)
     if rng.random() < 0.35:
         defects.append(rng.choice(DEFECTS))
     arg = df
-    for d in defects:
+    for d in [x for x in defects if not x.startswith('origin_')]:
         if not isinstance(arg, pd.DataFrame):
             break
         df = arg
@@ -241,10 +257,11 @@ def run(chk):
             chk.count('defect_' + d)
         chk.count('impl_' + r['impl'])
         replay = {'gen': {'seed': chk.seed, 'k': r['k']}, 'defects': r['defects']}
-        chk.case(r['digest'], nontrivial=any(d != 'none' for d in r['defects']),
+        chk.case(r['digest'], nontrivial=any(d != 'none' and not d.startswith('origin_') for d in r['defects']),
                  sample={'k': r['k'], 'defects': r['defects'], 'impl': r['impl'], 'warnings': r['warn']} if r['k'] < 6 else None)
         if ans.startswith('SCREEN bad-request'):
-            raise common.InfraError(f'driver rejected screening request {r["k"]}')
+            chk.mismatch('what the implementation produced cannot be expressed as a model request (driver: bad-request)', ans[:200], replay)
+            continue
         spec_guard = 'SPEC C15.rejects-iff' in ans
         ans = ans.split('; SPEC')[0]
         model = 'error' if ans.startswith('SCREEN error') else 'ok'
